@@ -4,7 +4,7 @@
 use std::{collections::BTreeMap, io};
 
 use ff::{Field, PrimeField};
-use group::{prime::PrimeCurveAffine, Curve, GroupEncoding};
+use group::{prime::PrimeCurveAffine, GroupEncoding};
 use midnight_circuits::{
     hash::poseidon::PoseidonChip,
     instructions::{
@@ -13,7 +13,7 @@ use midnight_circuits::{
     },
     types::AssignedNative,
 };
-use midnight_curves::{G1Affine, G1Projective, G2Affine};
+use midnight_curves::{G1Affine, G2Affine};
 use midnight_proofs::{
     circuit::{Layouter, SimpleFloorPlanner, Value},
     plonk::Error,
@@ -276,9 +276,17 @@ pub fn zkir_json(which: usize) -> String {
     }
 }
 
+/// `ZkirRelation::read_relation` decodes the tuple `(Program, usize)` although
+/// `write_relation` writes the program only, so it always consumes one varint more than was
+/// written. Inside a serialized `MidnightPK` that varint is the version byte of the plonk key
+/// that follows the relation; the bincode subject of this check is therefore the output of
+/// `write_relation` followed by that byte.
+pub const ZKIR_TRAILER: u8 = 0x03;
+
 pub fn zkir_encode(rel: &ZkirRelation) -> Vec<u8> {
     let mut v = vec![];
     rel.write_relation(&mut v).expect("write to vec");
+    v.push(ZKIR_TRAILER);
     v
 }
 
@@ -376,6 +384,7 @@ pub fn zkir_manual(prog: &[Instruction]) -> (Vec<u8>, Vec<Span>) {
             }
         }
     }
+    put(&mut out, &mut lay, &[ZKIR_TRAILER], "trailing-varint", Kind::Param);
     (out, lay)
 }
 
@@ -677,24 +686,9 @@ pub fn build_bundle(seed: u64, full: bool) -> Result<Bundle, String> {
 // Crafted encodings
 // ---------------------------------------------------------------------------------------------
 
-pub fn g1_generator_bytes(fmt: Fmt) -> Vec<u8> {
-    let mut v = vec![];
-    use midnight_proofs::utils::helpers::ProcessedSerdeObject;
-    G1Projective::from(G1Affine::generator()).write(&mut v, fmt.sf()).unwrap();
-    v
-}
-
 pub fn g2_generator_bytes(fmt: Fmt) -> Vec<u8> {
     let mut v = vec![];
     use midnight_proofs::utils::helpers::ProcessedSerdeObject;
     midnight_curves::G2Projective::from(G2Affine::generator()).write(&mut v, fmt.sf()).unwrap();
-    v
-}
-
-pub fn to_affine_bytes(p: &G1Projective, fmt: Fmt) -> Vec<u8> {
-    let mut v = vec![];
-    use midnight_proofs::utils::helpers::ProcessedSerdeObject;
-    p.write(&mut v, fmt.sf()).unwrap();
-    let _ = p.to_affine();
     v
 }
